@@ -5,6 +5,9 @@ package xdb
 
 import (
 	"errors"
+	"fmt"
+	"runtime"
+	"strings"
 	"sync"
 	"sync/atomic"
 
@@ -27,6 +30,8 @@ type Ctl struct {
 	FailAt     int64
 	FailRepeat int64
 	FailKinds  map[string]bool // nil = any kind
+	KeepStacks bool            // record where each failed call came from (diagnostics in failure reports)
+	Stacks     []string
 	Injected   []string        // kinds of the calls that were failed
 	// crash simulation: after FreezeAfter commits every later commit is dropped
 	FreezeAfter int64
@@ -79,10 +84,32 @@ func (c *Ctl) step(kind string) bool {
 		if c.FailKinds == nil || c.FailKinds[kind] {
 			fail = true
 			c.Injected = append(c.Injected, kind)
+			if c.KeepStacks {
+				c.Stacks = append(c.Stacks, callers())
+			}
 		}
 	}
 	c.mu.Unlock()
 	return fail
+}
+
+// callers renders the wallet-side frames above the interposer.
+func callers() string {
+	pc := make([]uintptr, 24)
+	n := runtime.Callers(3, pc)
+	fr := runtime.CallersFrames(pc[:n])
+	var out []string
+	for {
+		f, more := fr.Next()
+		if strings.Contains(f.Function, "mass-wallet/") {
+			fn := f.Function[strings.LastIndex(f.Function, "/")+1:]
+			out = append(out, fmt.Sprintf("%s:%d", fn, f.Line))
+		}
+		if !more || len(out) >= 8 {
+			break
+		}
+	}
+	return strings.Join(out, " < ")
 }
 
 func maxI(a, b int64) int64 {
